@@ -421,8 +421,8 @@ func TestC08(t *testing.T) {
 	typed, stats := c08TypedCases()
 	c.Extra("typed_positions", stats)
 	RunEnum(c, t, "type-transparency", len(typed), func(i int) c08TypedCase { return typed[i] }, c08TypedCheck, true)
-	RunRapid(c, t, Sub[c08EscapeCase]{Kind: "escape-law", Quick: 1200, Thorough: 40_000, Gen: genC08Escape, Check: c08EscapeCheck})
-	RunRapid(c, t, Sub[c08ShapeCase]{Kind: "shape", Quick: 3000, Thorough: 100_000,
+	RunRapid(c, t, Sub[c08EscapeCase]{Kind: "escape-law", Quick: 4000, Thorough: 40_000, Gen: genC08Escape, Check: c08EscapeCheck})
+	RunRapid(c, t, Sub[c08ShapeCase]{Kind: "shape", Quick: 10000, Thorough: 100_000,
 		Gen: func(t *rapid.T) c08ShapeCase {
 			e := genC08Escape(t)
 			if rapid.Bool().Draw(t, "doubled") {
